@@ -21,6 +21,7 @@ import OFV.Proofs.C13Mel
 import OFV.Proofs.C13Bose
 import OFV.Proofs.C13Herm2
 import OFV.Proofs.C13Exact
+import OFV.Proofs.C13Exact2
 import Mathlib.Tactic.NormNum
 
 namespace OFV.C13
@@ -353,6 +354,43 @@ theorem bose_hubbard_sound (tol : Rat) (φ : Term → GQ) (a : HubbardArgs)
         ((-a.t) * φ (hopKey e.1 e.2) + (-a.t) * φ (hopKey e.2 e.1)) + a.h * φ (nnKey e.1 e.2)) +
       gsumL ((List.range (a.x * a.y)).map (boseSiteDen tol φ a)) :=
   bose_hubbard_sound' tol φ a hex ht hreg
+
+/-- **exact regime of all three site loops, particle-hole form included.**  For couplings on `(1/D) ℤ[i]` and
+`tol · 4D ≤ 1` (the factors `1/2`, `1/4` of the particle-hole shift and of the on-site boson term refine the grid by 4)
+every `+=` of the spinless / spinful `fermi_hubbard` and of the `bose_hubbard` site loop is in the exact regime: the
+coefficient grid is preserved by `mk`, scalar multiples, `-=`, `+=` and products of ladder-operator dictionaries -/
+theorem hubbard_exact_regime_of_grid (D : Nat) (hD : 0 < D) (tol : Rat)
+    (htol : tol * tol * (((D * 4 : Nat) : Rat) * (D * 4 : Nat)) ≤ 1) (a : HubbardArgs)
+    (hgt : OnGrid D a.t) (hgu : OnGrid D a.u) (hgmu : OnGrid D a.mu) (hgh : OnGrid D a.h) :
+    ExactSum tol [] ((List.range (a.x * a.y)).flatMap (spinlessPieces tol a)) ∧
+    ExactSum tol [] ((List.range (a.x * a.y)).flatMap (spinfulPieces tol a)) ∧
+    ExactSum tol [] ((List.range (a.x * a.y)).flatMap (bosePieces tol a)) :=
+  ⟨spinless_exact_of_grid4 hD htol a hgt hgu hgmu, spinful_exact_of_grid4 hD htol a hgt hgu hgmu hgh,
+    bose_exact_of_grid4 hD htol a hgt hgu hgmu hgh⟩
+
+/-- **hubbard_sound (`bose_hubbard`), exact-regime hypothesis discharged**: every lattice size, both boundary conditions,
+real hopping amplitude, couplings on `(1/D) ℤ[i]` with `tol · 4D ≤ 1`, EVERY term functional `φ` — no hypothesis about
+the `+=` steps is left -/
+theorem bose_hubbard_sound_grid (D : Nat) (hD : 0 < D) (tol : Rat)
+    (htol : tol * tol * (((D * 4 : Nat) : Rat) * (D * 4 : Nat)) ≤ 1) (φ : Term → GQ) (a : HubbardArgs)
+    (hgt : OnGrid D a.t) (hgu : OnGrid D a.u) (hgmu : OnGrid D a.mu) (hgh : OnGrid D a.h) (ht : a.t.conj = a.t) :
+    den φ (boseHubbard tol a) =
+      gsumL ((edges adjNN a.x a.y a.periodic).map fun e =>
+        ((-a.t) * φ (hopKey e.1 e.2) + (-a.t) * φ (hopKey e.2 e.1)) + a.h * φ (nnKey e.1 e.2)) +
+      gsumL ((List.range (a.x * a.y)).map (boseSiteDen tol φ a)) :=
+  bose_hubbard_sound' tol φ a (bose_exact_of_grid4 hD htol a hgt hgu hgmu hgh) ht (hopping_reg_of_grid4 hD htol hgt)
+
+/-- the spinful model WITH or without the particle-hole shift, every term functional `φ` -/
+theorem spinful_hubbard_sound_grid_phs (D : Nat) (hD : 0 < D) (tol : Rat)
+    (htol : tol * tol * (((D * 4 : Nat) : Rat) * (D * 4 : Nat)) ≤ 1) (φ : Term → GQ) (a : HubbardArgs)
+    (hgt : OnGrid D a.t) (hgu : OnGrid D a.u) (hgmu : OnGrid D a.mu) (hgh : OnGrid D a.h) (ht : a.t.conj = a.t) :
+    den φ (spinfulFermiHubbard tol a) =
+      gsumL ((edges adjNN a.x a.y a.periodic).map fun e =>
+        ((-a.t) * φ [(2 * e.1, 1), (2 * e.2, 0)] + (-a.t) * φ [(2 * e.2, 1), (2 * e.1, 0)]) +
+        ((-a.t) * φ [(2 * e.1 + 1, 1), (2 * e.2 + 1, 0)] + (-a.t) * φ [(2 * e.2 + 1, 1), (2 * e.1 + 1, 0)])) +
+      gsumL ((List.range (a.x * a.y)).map (spinSiteDen tol φ a)) :=
+  spinful_hubbard_sound' tol φ a (spinful_exact_of_grid4 hD htol a hgt hgu hgmu hgh) ht
+    (hopping_reg_of_grid4 hD htol hgt)
 
 /-- **hermitian_generators (spinful `fermi_hubbard`)**: real `t`, `U`, `μ`, `h`, every lattice size: every matrix element
 of the Model's output computed with the Spec action satisfies `⟦H⟧_{φ†} = conj ⟦H⟧_φ` for `φ = mel s t`
